@@ -3,6 +3,7 @@
 mod api;
 mod corpus;
 mod ctx;
+mod gen_lex;
 mod gen_pp;
 mod gen_sv;
 mod lexer;
